@@ -50,23 +50,47 @@ def _classify(cls) -> str:
     return "other"
 
 
-def _native_check(func: ast.FunctionDef) -> bool:
-    """inside the `try:` that renders: `if isinstance(result, Undefined): str(result)` before the
-    return, with no handler swallowing differently — only the presence of the test and of the
-    `str(...)` use on the same name is read"""
+def _tests_undefined(body, var=None):
+    """name X such that `body` contains `isinstance(X, Undefined)` and a `str(X)` use"""
+    wrap = ast.Module(body=list(body), type_ignores=[])
+    tested = {n.args[0].id for n in ast.walk(wrap)
+              if isinstance(n, ast.Call) and isinstance(n.func, ast.Name) and n.func.id == "isinstance" and len(n.args) == 2
+              and isinstance(n.args[0], ast.Name) and isinstance(n.args[1], ast.Name) and n.args[1].id == "Undefined"}
+    used = {n.args[0].id for n in ast.walk(wrap)
+            if isinstance(n, ast.Call) and isinstance(n.func, ast.Name) and n.func.id == "str" and n.args and isinstance(n.args[0], ast.Name)}
+    both = tested & used
+    return both if var is None else (var in both)
+
+
+def _native_check(mod: ast.Module, func: ast.FunctionDef) -> bool:
+    """inside the `try:` that renders, before the `return`: the rendered result is tested for being
+    an `Undefined` object and used with `str(...)` (which raises for StrictUndefined) — either in
+    place (`if isinstance(result, Undefined): str(result)`) or through a module-level helper called
+    with the result (`_raise_if_undefined_inside(result)`)."""
+    helpers = {}
+    for n in mod.body:
+        if isinstance(n, ast.FunctionDef) and n.args.args:
+            if _tests_undefined(n.body, n.args.args[0].arg):
+                helpers[n.name] = n
     for t in ast.walk(func):
         if not isinstance(t, ast.Try):
             continue
+        rendered = None
         for n in t.body:
-            if isinstance(n, ast.If) and isinstance(n.test, ast.Call) and isinstance(n.test.func, ast.Name) \
-                    and n.test.func.id == "isinstance" and len(n.test.args) == 2 \
-                    and isinstance(n.test.args[0], ast.Name) and isinstance(n.test.args[1], ast.Name) \
-                    and n.test.args[1].id == "Undefined":
-                var = n.test.args[0].id
-                for c in ast.walk(ast.Module(body=n.body, type_ignores=[])):
-                    if isinstance(c, ast.Call) and isinstance(c.func, ast.Name) and c.func.id == "str" \
-                            and c.args and isinstance(c.args[0], ast.Name) and c.args[0].id == var:
-                        return True
+            if isinstance(n, ast.Assign) and len(n.targets) == 1 and isinstance(n.targets[0], ast.Name) \
+                    and any(isinstance(c, ast.Attribute) and c.attr == "render" for c in ast.walk(n.value)):
+                rendered = n.targets[0].id
+                continue
+            if rendered is None:
+                continue
+            if isinstance(n, ast.Return):
+                break
+            if isinstance(n, ast.If) and _tests_undefined([n], rendered):
+                return True
+            if isinstance(n, ast.Expr) and isinstance(n.value, ast.Call) and isinstance(n.value.func, ast.Name) \
+                    and n.value.func.id in helpers and n.value.args and isinstance(n.value.args[0], ast.Name) \
+                    and n.value.args[0].id == rendered:
+                return True
     return False
 
 
@@ -140,7 +164,7 @@ def tables() -> str:
 
     pas = _find_func(cls, "parse_as_string")
     w_start, w_end, w_find, w_brace, w_off = _wrapper_literals(pas)
-    check = _native_check(pas)
+    check = _native_check(mod_ast, pas)
 
     return (
         "inductive JinjaPolicy where\n  | strict | lenient | other\n  deriving DecidableEq, Repr\n"
